@@ -6,6 +6,7 @@ import (
 	"go/constant"
 	"go/token"
 	"go/types"
+	"os"
 )
 
 // ExpandOpt configures Expand.
@@ -54,6 +55,10 @@ func (p *Prog) Expand(f *Func, opt ExpandOpt) *Func {
 	}
 	x.topWritten = x.writtenObjs(f.Body)
 	body.List = x.blockT(body.List, 0, true)
+	if len(x.inlinedCalls) > 0 && os.Getenv("SIALINT_NODETEMP") == "" {
+		// parameter bindings and result copies introduced by the expansion are temporaries like any other
+		p.detemp(x.info, body)
+	}
 	v := &Func{P: p, Obj: f.Obj, Decl: f.Decl, Lit: f.Lit, Parent: f.Parent, Pkg: f.Pkg, Body: body, Type: f.Type, name: f.name, View: true, Base: f, Inlined: x.inlined, InlinedCalls: x.inlinedCalls}
 	p.indexLits(v, v, body, false)
 	if p.views == nil {
@@ -658,9 +663,10 @@ func (x *expander) inline(call *ast.CallExpr, ctx *callCtx, depth int) ([]ast.St
 			cl.subst[pobj] = arg
 			return
 		}
-		def := &ast.Ident{NamePos: nameID.Pos() + token.Pos(off), Name: nameID.Name}
+		// positioned at the operand, so that the binding occupies the operand's source range
+		def := &ast.Ident{NamePos: arg.Pos(), Name: nameID.Name}
 		x.info.Defs[def] = cl.mapObj(pobj)
-		out = append(out, &ast.AssignStmt{Lhs: []ast.Expr{def}, TokPos: at, Tok: token.DEFINE, Rhs: []ast.Expr{arg}})
+		out = append(out, &ast.AssignStmt{Lhs: []ast.Expr{def}, TokPos: arg.Pos(), Tok: token.DEFINE, Rhs: []ast.Expr{arg}})
 	}
 	if c.recv != nil && fn.Decl != nil && fn.Decl.Recv != nil && len(fn.Decl.Recv.List) == 1 {
 		var nm *ast.Ident
